@@ -92,7 +92,7 @@ def params_of(cls_name):
 
 
 KINDS = {"quantity": ["wrong_dimension", "negative", "raw_number", "string", "bare_quantity", "hourly_series",
-                      "not_allowed_for_server_type"],
+                      "not_allowed_for_server_type", "value_of_another_object"],
          "list": ["wrong_class_element", "wrong_class_element_2", "string_element"],
          "choice": ["outside_allowed_values", "incompatible_with_fixed_count"],
          "hourly": ["scalar_instead", "raw_number", "other_length"], "link": ["wrong_class_link"],
@@ -120,6 +120,10 @@ def grid(spec):
                         continue
                     if kind == "not_allowed_for_server_type" and not (
                             p == "fixed_nb_of_instances" and e["cls"] in S.SERVER_CLS and site != "construction"):
+                        continue
+                    if kind == "value_of_another_object" and (site == "construction" or p not in (
+                            "power", "lifespan", "carbon_footprint_fabrication", "data_transferred",
+                            "average_carbon_intensity", "user_time_spent")):
                         continue
                     if kind == "incompatible_with_fixed_count" and not (
                             p == "server_type" and e["cls"] in S.SERVER_CLS and site != "construction"):
@@ -161,6 +165,13 @@ def invalid_value(cell, objs, spec):
             return 3 * u(unit)
         if kind == "hourly_series":
             return SourceHourlyValues(create_hourly_usage_df_from_list([1.0, 2.0], datetime(2025, 1, 1), u(unit)))
+        if kind == "value_of_another_object":
+            # obj.power = other.power: the very value object another object holds (a refusal must leave both alone)
+            for n2, o2 in sorted(objs.items()):
+                if o2 is not obj and n2 != "system" and p in getattr(o2, "__dict__", {}) and \
+                        getattr(getattr(o2, p), "modeling_obj_container", None) is not None:
+                    return getattr(o2, p)
+            return None
         if kind == "not_allowed_for_server_type":
             # a fixed number of instances is only allowed on an on-premise server (conditional allowed list)
             if str(obj.server_type.value) == "on-premise":
